@@ -728,6 +728,14 @@ func genC13(c *corpus, seed uint64) *scn.Scenario {
 	if len(kinds) == 0 {
 		kinds = c13Ops
 	}
+	// swarm: in a quarter of the runs some operations are applied to one or two
+	// chosen statements of the tree instead of the root
+	var subs []int
+	if r.chance(25) {
+		for k := 1 + r.n(2); k > 0; k-- {
+			subs = append(subs, 1+r.n(40))
+		}
+	}
 	if withFaults && r.chance(20) {
 		// fault scan: one operation kind cut short at consecutive positions (the
 		// executor takes the position modulo the operation's length), so that one
@@ -762,6 +770,9 @@ func genC13(c *corpus, seed uint64) *scn.Scenario {
 		}
 		if withFaults && op.Kind == "traverse" && r.chance(40) {
 			op.Fault = &scn.WFault{Kind: "abort", At: r.n(100000)} // the visitor aborts the traversal
+		}
+		if len(subs) > 0 && r.chance(40) {
+			op.Sub = subs[r.n(len(subs))] // applied to one statement instead of the root
 		}
 		s.History = append(s.History, op)
 	}
